@@ -233,6 +233,7 @@ def run_bell(report, tier, seed, fmts=("f64", "f32"), timeout=None, classes=None
             # is made for many = false only
             wmax = 10 ** 19 - 1 if many else None
             jobs.append((J.job_bell, (mp, fmt, q, lz, many, timeout, seed, wmax, strict)))
+        jobs.append((J.job_bell_early, (mp, fmt, 60)))
     res = pool.run_jobs(jobs, progress=1000)
     consume(report, res, "compact", "bell")
     report.functions.update(["bellerophon::bellerophon", "bellerophon::normalize", "bellerophon::mul",
@@ -279,6 +280,8 @@ def consume(report, results, runner_cfg, label):
             w = m.get("w")
             desc = "%s %s q=%s lz=%s many=%s model=%s %s" % (r["job"], r.get("fmt"), r.get("q"), r.get("lz"),
                                                             r.get("many"), m, r.get("detail", ""))
+            if w is not None and m.get("q") is not None and r.get("q") is None:
+                r = dict(r, q=int(m["q"]), many=bool(m.get("many", False)))
             if w is None:
                 # structural violation (glue / early-out): no concrete input to replay
                 payload = dict(r)
